@@ -9,8 +9,8 @@ broadcast use {shim::axiom_u256_into_self, shim::axiom_u256_into_obeys, shim::ax
         /*[C06 swap.commission-base]*/ c06_commission(commission_rate.0.v(), r.0.0 as nat, r.2.0 as nat),
         /*[C06 swap.bound-lower]*/ c06_lower(offer_pool.0 as nat, ask_pool.0 as nat, offer_amount.0 as nat, commission_rate.0.v(), r.0.0 as nat),
         /*[C06 swap.bound-upper]*/ c06_upper(offer_pool.0 as nat, ask_pool.0 as nat, offer_amount.0 as nat, commission_rate.0.v(), r.0.0 as nat),
-        /*[C01 swap.no-overpay]*/ sw_window(offer_pool.0 as nat, ask_pool.0 as nat, offer_amount.0 as nat) || c01_no_overpay(offer_pool.0 as nat, ask_pool.0 as nat, offer_amount.0 as nat, r.0.0 as nat),
-        /*[C01 swap.window-bound]*/ c01_window_bound(offer_pool.0 as nat, ask_pool.0 as nat, offer_amount.0 as nat, r.0.0 as nat),
+        /*[C01,C03 swap.no-overpay]*/ sw_window(offer_pool.0 as nat, ask_pool.0 as nat, offer_amount.0 as nat) || c01_no_overpay(offer_pool.0 as nat, ask_pool.0 as nat, offer_amount.0 as nat, r.0.0 as nat),
+        /*[C01,C03 swap.window-bound]*/ c01_window_bound(offer_pool.0 as nat, ask_pool.0 as nat, offer_amount.0 as nat, r.0.0 as nat),
 //%%insert before #1 /^\s*\($/
     proof {
         let x = offer_pool.0.v(); let y = ask_pool.0.v(); let a = offer_amount.0.v(); let cr = commission_rate.0.v();
